@@ -21,8 +21,12 @@ Expected(e) ==
                                    /\ (e.name = "secp256r1" => c = Secp256r1)]
       [] e.op = "curve_accept" -> [ok |-> ValidCurve(c) = e.accepted, want |-> ValidCurve(c)]
       [] e.op = "lin" ->
-            LET terms == [j \in 1..Len(e.ks) |-> RMul(c, N(e.ks[j]), IF "g" \in DOMAIN e.ps[j] THEN G(c) ELSE PtOf(e.ps[j]))]
-            IN [ok |-> ECR!Sum(c, terms) = PtOf(e.out), want |-> ECR!Sum(c, terms)]
+            \* a term whose point is not on the curve makes the whole sum undefined, whatever its scalar: the call is refused (out = {refused: 1})
+            LET named(j) == "g" \in DOMAIN e.ps[j] \/ "inf" \in DOMAIN e.ps[j]
+                off == \E j \in 1..Len(e.ps) : ~named(j) /\ ~ECR!OnCurve(c, PtOf(e.ps[j]))
+                terms == [j \in 1..Len(e.ks) |-> RMul(c, N(e.ks[j]), IF "g" \in DOMAIN e.ps[j] THEN G(c) ELSE PtOf(e.ps[j]))]
+            IN IF off THEN [ok |-> "refused" \in DOMAIN e.out, want |-> "refused"]
+               ELSE [ok |-> "refused" \notin DOMAIN e.out /\ ECR!Sum(c, terms) = PtOf(e.out), want |-> ECR!Sum(c, terms)]
       [] e.op = "sec" ->
             LET P == PtOf(e.P)
                 enc == IF e.comp THEN SecCompressed(c, P) ELSE SecUncompressed(c, P)
